@@ -36,7 +36,7 @@ import warnings
 
 warnings.filterwarnings("ignore", category=SyntaxWarning)
 
-from sim import kernel, procs, minimise, registry  # noqa: E402
+from sim import kernel, procs, minimise, registry, triage  # noqa: E402
 
 # the two output directories can be redirected (the sensitivity self-test runs the checks against mutated
 # copies of the source and must not overwrite the evidence of the real tree)
@@ -62,12 +62,8 @@ def load_findings(prop: str):
     return [e for e in data.get("entries", []) if e["property"] == prop]
 
 
-def signature_matches(entry_sig: dict, features: dict) -> bool:
-    return all(features.get(k) == v for k, v in entry_sig.items())
-
-
-def rule_matches(entry_rules, rule: str) -> bool:
-    return rule in entry_rules
+signature_matches = triage.signature_matches
+rule_matches = triage.rule_matches
 
 
 def write_replay(prop: str, spec, scenario: dict, verdicts, digest_, verif_seed, index, extra=None) -> str:
@@ -181,7 +177,9 @@ def run_check(prop: str, tier: str) -> int:
                 violations.append((path, v))
 
     # 2. exploration
-    batch = procs.run_batch(machine, prop, verif_seed, cfg, n_runs, workers, wall_budget=wall_budget, max_keep=5000)
+    batch = procs.run_batch(machine, prop, verif_seed, cfg, n_runs, workers, wall_budget=wall_budget, max_keep=5000, open_entries=open_entries)
+    for k, v in batch.get("suppressed", {}).items():
+        suppressed[k] = suppressed.get(k, 0) + v
     if batch["worker_errors"]:
         anomalies.extend(batch["worker_errors"])
     for he in batch["harness_errors"][:3]:
@@ -206,20 +204,7 @@ def run_check(prop: str, tier: str) -> int:
     reported_classes = []
     untriaged = 0
     nondeterministic_failures = 0
-    def _signature_only_entry(v):
-        for e in open_entries:
-            if not e.get("neutraliser") and rule_matches(e["rules"], v["rule"]) and signature_matches(e.get("signature", {}), v["features"]):
-                return e
-        return None
-
     for fail in batch["failures"]:
-        # verdicts of open findings that are attributed on their signature alone (the run applies the
-        # neutraliser itself, e.g. C20's severing step) need no re-execution
-        pre = [_signature_only_entry(v) for v in fail["verdicts"]]
-        if all(e is not None for e in pre):
-            for e in pre:
-                suppressed[e["id"]] += 1
-            continue
         if time.monotonic() > triage_deadline:
             untriaged += 1
             continue
@@ -239,40 +224,7 @@ def run_check(prop: str, tier: str) -> int:
                 anomalies.append(f"run {index}: a failing run ({[v['rule'] for v in fail['verdicts']]}) did not fail when re-executed - its outcome depends on the process's allocation history")
                 continue
         for v in res["verdicts"]:
-            attributed = None
-            # 1. findings attributed on their signature alone (the run applies the neutraliser itself)
-            for e in open_entries:
-                if not e.get("neutraliser") and rule_matches(e["rules"], v["rule"]) and signature_matches(e.get("signature", {}), v["features"]):
-                    attributed = e
-                    break
-            # 2. findings with a neutraliser: remove the trigger and see whether the verdict disappears.  Removing one
-            #    trigger can let the victim live longer and meet the same or ANOTHER listed trigger, so the neutralisers
-            #    of all entries whose signature the remaining verdict carries are applied cumulatively, to a fixed point.
-            if attributed is None:
-                current, current_v, used = scenario, v, []
-                for _ in range(10):
-                    progressed = False
-                    for e in open_entries:
-                        if not e.get("neutraliser"):
-                            continue
-                        if not (rule_matches(e["rules"], current_v["rule"]) and signature_matches(e.get("signature", {}), current_v["features"])):
-                            continue
-                        neutral = machine.neutralise(current, e["neutraliser"], current_v)
-                        if neutral is None or (neutral.get("ops") == current.get("ops") and neutral.get("queries") == current.get("queries")):
-                            continue
-                        nres = procs.execute_scenario(machine, neutral)
-                        if "harness_error" in nres or nres.get("timeout"):
-                            continue
-                        used.append(e)
-                        progressed = True
-                        again = [nv for nv in nres["verdicts"] if machine.same_target(v, nv)]
-                        if not again:
-                            attributed = used[0]
-                        else:
-                            current, current_v = neutral, again[0]
-                        break
-                    if attributed is not None or not progressed:
-                        break
+            attributed = triage.attribute(machine, scenario, v, open_entries)
             if attributed is not None:
                 suppressed[attributed["id"]] += 1
                 continue
